@@ -73,7 +73,7 @@ func (m *ViaModifier) ModifyRequest(req *http.Request) error {
 	sb.Grow(m.nextLen(via))
 
 	if via != "" {
-		if strings.Contains(via, m.tag) {
+		if m.inChain(via) {
 			req.Close = true
 			return martian.ErrorStatus{
 				Err:    fmt.Errorf("via: detected request loop, header contains %s", via),
@@ -102,6 +102,58 @@ func (m *ViaModifier) ModifyRequest(req *http.Request) error {
 	req.Header.Set("Via", sb.String())
 
 	return nil
+}
+
+// inChain reports whether one of the elements of the Via chain was added by
+// this modifier, that is, names the tag as the element's received-by. The tag
+// occurring inside a comment or as a part of another hop's name is no loop.
+func (m *ViaModifier) inChain(via string) bool {
+	found, balanced := m.scanChain(via, true)
+	if !balanced {
+		// A comment that is never closed must not hide the elements after it.
+		found, _ = m.scanChain(via, false)
+	}
+	return found
+}
+
+func (m *ViaModifier) scanChain(via string, comments bool) (found, balanced bool) {
+	depth, start := 0, 0
+	for i := 0; i <= len(via); i++ {
+		if i < len(via) {
+			switch c := via[i]; {
+			case c == '\\' && depth > 0:
+				i++ // quoted-pair inside a comment
+				continue
+			case c == '(' && comments:
+				depth++
+				continue
+			case c == ')' && depth > 0:
+				depth--
+				continue
+			case c != ',' || depth > 0:
+				continue
+			}
+		}
+		if m.receivedBy(via[start:i]) == m.tag {
+			return true, true
+		}
+		start = i + 1
+	}
+	return false, depth == 0
+}
+
+// receivedBy returns the received-by part of a Via element:
+// received-protocol RWS received-by [ RWS comment ].
+func (m *ViaModifier) receivedBy(elem string) string {
+	if i := strings.IndexByte(elem, '('); i >= 0 {
+		elem = elem[:i]
+	}
+	elem = strings.Trim(elem, " \t")
+	i := strings.IndexAny(elem, " \t")
+	if i < 0 {
+		return ""
+	}
+	return strings.Trim(elem[i:], " \t")
 }
 
 func (m *ViaModifier) nextLen(via string) int {
